@@ -296,9 +296,18 @@ def enc_moltext(s, calc):
     timestamp, comment) is held apart from the body; only the body is digested."""
     lines = s.split("\n")
     body = lines[3:]
+    coords = None
     if calc:
+        coords = []
+        for l in body:
+            m = _ATOMLINE.match(l)
+            if m:
+                try:
+                    coords.append([float(m.group(2)), float(m.group(3)), float(m.group(4))])
+                except ValueError:
+                    coords.append([m.group(2), m.group(3), m.group(4)])
         body = [_mask_coords(l) for l in body]
-    return {"t": "mol", "body": body, "hdr": lines[:3]}
+    return {"t": "mol", "body": body, "hdr": lines[:3], "coords": coords}
 
 
 _ATOMLINE = re.compile(r"^(M  V30 \d+ \S+) (\S+) (\S+) (\S+)( .*)$")
@@ -1087,6 +1096,8 @@ def exec_op(sim, cl, i, traced):
             else:
                 enc = enc_moltext(res, bool(base.get("calc")))
                 rec["hdr"] = enc["hdr"]
+                if enc.get("coords") is not None:
+                    rec["coords"] = enc["coords"]
             rec["dg"] = digest(enc)
             if spec.get("full") or (rtype == model.STRING and len(res) < 400):
                 rec["enc"] = enc
